@@ -328,6 +328,8 @@ impl<T1, T2, T3>''')]),
             self.stats.record_miss();''', '''            remove_key_from_global_cache(&mut map_write, &mut o, key);
             #[cfg(feature = "stats")]
             self.stats.record_hit();''')]),
+ ("c15_stats_hits_not_atomic", ["C15"], [("cachelito-core/src/stats.rs", """        self.hits.fetch_add(1, Ordering::Relaxed);""", """        let h = self.hits.load(Ordering::Relaxed);
+        self.hits.store(h + 1, Ordering::Relaxed);""")]),
  ("c15_async_miss_twice_on_expiry", ["C15"], [(A, '''            self.cache.remove(key);
             order.retain(|k| k != key);
         }
